@@ -8,6 +8,10 @@ import D42.Model.Subst
 import D42.Model.Decl
 import D42.Model.Repr
 import D42.Model.Eq
+import D42.Model.Rollout
+import D42.Model.Migrate
+import D42.Model.History
+import D42.Gen.Migration
 
 open D42 D42.Sexp
 
@@ -59,6 +63,60 @@ def encTok : Tok → Sexp
   | .key k => .list [.atom "key", encKey k]
   | .pat i => .list [.atom "pat", encNat i]
   | .name n => encNats "name" n
+
+def decRKey : Sexp → Option RKey
+  | .atom "E" => some .ell
+  | .list [.atom "rs", s, o] => do some (.str (← decStr s) (← decBool o))
+  | .list [.atom "ro", i] => do some (.other (← sxNat i))
+  | _ => none
+
+partial def decRVal : Sexp → Option RVal
+  | .atom "E" => some .ell
+  | .list [.atom "leaf", n] => do some (.leaf (← sxNat n))
+  | .list (.atom "rd" :: kvs) => do
+      some (.dict (← kvs.mapM (fun kv => match kv with
+        | .list [k, v] => do some ((← decRKey k), (← decRVal v))
+        | _ => none)))
+  | _ => none
+
+def encRKey : RKey → Sexp
+  | .ell => .atom "E"
+  | .str s o => .list [.atom "rs", encNats "s" s, encBool o]
+  | .other i => .list [.atom "ro", encNat i]
+
+partial def encRVal : RVal → Sexp
+  | .ell => .atom "E"
+  | .leaf n => .list [.atom "leaf", encNat n]
+  | .dict kvs => .list (.atom "rd" :: kvs.map (fun kv => .list [encRKey kv.1, encRVal kv.2]))
+
+def decAlias : Sexp → Option Migrate.Alias
+  | .list [.atom "alias", n, a] => do some { name := (← decBytes n), asname := (← decOpt decBytes a) }
+  | _ => none
+
+def decStmt : Sexp → Option Migrate.Stmt
+  | .list [.atom "stmt", a, b, c, d, k] => do
+    let kind ← (match k with
+      | .atom "other" => some Migrate.Kind.other
+      | .list (.atom "from" :: m :: lvl :: names) => do
+          some (Migrate.Kind.importFrom (← decOpt decBytes m) (← sxNat lvl) (← names.mapM decAlias))
+      | _ => none)
+    some { lineno := (← sxNat a), endLineno := (← sxNat b), col := (← sxNat c), endCol := (← sxNat d), kind := kind }
+  | _ => none
+
+def decHOp : Sexp → Option HOp
+  | .list [.atom "hdecl", i, op] => do some (.decl (← sxNat i) (← decOp op))
+  | .list [.atom "hsubst", i, v] => do some (.subst (← sxNat i) (← decVal v))
+  | .list [.atom "hunion", i, j] => do some (.union (← sxNat i) (← sxNat j))
+  | .list [.atom "hadd", i, j] => do some (.add (← sxNat i) (← sxNat j))
+  | .list [.atom "hrequired", i, ks] => do
+      let ks' ← (match ks with | .atom "_" => some none | .list (.atom "ks" :: l) => (l.mapM decKey).map some | _ => none)
+      some (.makeRequired (← sxNat i) ks')
+  | .list [.atom "hfromnative", v] => do some (.fromNative (← decVal v))
+  | .list [.atom "hgetitem", i, k] => do some (.getItem (← sxNat i) (← decKey k))
+  | .list [.atom "hvalidate", i, v] => do some (.validate (← sxNat i) (← decVal v))
+  | .list [.atom "hrepr", i] => do some (.represent (← sxNat i))
+  | .list [.atom "heq", i, j] => do some (.eq (← sxNat i) (← sxNat j))
+  | _ => none
 
 def mkEnv (tab : List (Nat × Str × Bool)) : Env :=
   { rxSearch := fun i s => match tab.find? (fun e => e.1 == i && e.2.1 == s) with
@@ -130,6 +188,34 @@ def handle (e : Sexp) : Sexp :=
   | .list [.atom "eq", a, b, tab] =>
     (match decSchema a, decSchema b, decRxTab tab with
      | some a, some b, some tab => encBool (pyEq (mkEnv tab) a b)
+     | _, _, _ => .atom "BADINPUT")
+  | .list [.atom "eqvalue", a, v, tab] =>
+    (match decSchema a, decVal v, decRxTab tab with
+     | some a, some v, some tab => encBool (pyEqValue (mkEnv tab) a v)
+     | _, _, _ => .atom "BADINPUT")
+  | .list [.atom "rollout", sep, v] =>
+    (match decStr sep, decRVal v with
+     | some sep, some (.dict kvs) => encExcept (fun r => encRVal (.dict r)) (rollout sep kvs)
+     | _, _ => .atom "BADINPUT")
+  | .list [.atom "migrate", .list (.atom "lines" :: ls), .list (.atom "stmts" :: ss)] =>
+    (match ls.mapM decBytes, ss.mapM decStmt with
+     | some ls, some ss =>
+       (match Migrate.rewriteImports Gen.Migration.mapping ls ss with
+        | some out => .list [.atom "some", encNats "y" out]
+        | none => .atom "none")
+     | _, _ => .atom "BADINPUT")
+  | .list [.atom "history", .list (.atom "pool" :: ps), .list (.atom "ops" :: ops), tab] =>
+    (match ps.mapM decSchema, ops.mapM decHOp, decRxTab tab with
+     | some ps, some ops, some tab =>
+       let (pool, obs) := runHistory (mkEnv tab) ps ops
+       .list [.list (.atom "pool" :: pool.map encSchema),
+              .list (.atom "obs" :: obs.map (fun o => match o with
+                | .stored i => .list [.atom "stored", encNat i]
+                | .raised e => .list [.atom "raised", encExc e]
+                | .errors n => .list [.atom "errors", encNat n]
+                | .text t => .list (.atom "toks" :: t.map encTok)
+                | .bool b => .list [.atom "bool", encBool b]
+                | .badIndex => .atom "badindex"))]
      | _, _, _ => .atom "BADINPUT")
   | .list [.atom "echo-schema", s] =>
     (match decSchema s with | some s => encSchema s | none => .atom "BADINPUT")
